@@ -10,7 +10,10 @@ Fail-closed: a construct the translator does not understand aborts the generatio
    with timeout_wrapper, the tables around every library step of open();
  * base_socket.Socket: tables around sock.send(b"") (isalive), sock.shutdown (close), getaddrinfo, connect;
  * channel: the except clauses of the two Telnet login loops, whether the asyncio loop sleeps on every path,
-   and that no other channel read/write loop contains a try / suppress;
+   the except / suppress tables around self.read() in the read-for-a-duration loop (_read_until_prompt_or_time:
+   gen_rtime_sync / gen_rtime_async, checked by ConnLossTime.rtime_ok), that no other channel read/write loop contains
+   a try / suppress, and that the channel lock context manager gives the lock back however its body is left
+   (gen_chan_lock_released);
  * the writes INSIDE read() of the two Telnet transports (option negotiation replies): every send / write call
    reachable from read() (read, _read, _handle_control_chars, _handle_control_chars_response and the helpers they
    call), the try/except tables between its low-level send and the caller of read() (the transport's own write()
@@ -491,13 +494,119 @@ def login_facts(trees):
     return sync_t, async_t, sleeps, free, bad
 
 
+def may_swallow_action(h):
+    """handler_action, except that a handler with a raise on some paths only is read as one that may swallow (the
+    check asks that a loss is never swallowed: the conservative reading)"""
+    try:
+        return handler_action(h)
+    except Unknown as e:
+        if "raise in the middle" in str(e) or "conditional bare raise" in str(e):
+            return "ASwallow"
+        raise
+
+
+def rtime_facts(trees):
+    """the tables (innermost first) around the one self.read() of _read_until_prompt_or_time, sync and asyncio"""
+    out = []
+    io = ("read", "write", "send_return", "_read_until_input", "_read_until_prompt", "_read_until_explicit_prompt")
+    for key, cname in (("sync_channel", "Channel"), ("async_channel", "AsyncChannel")):
+        fn = find_func(find_class(trees[key], cname), "_read_until_prompt_or_time")
+        calls = [c for c in ast.walk(fn) if isinstance(c, ast.Call) and call_attr(c) in io
+                 and isinstance(c.func, ast.Attribute) and ast.unparse(c.func.value) == "self"]
+        if len(calls) != 1 or ast.unparse(calls[0].func) != "self.read":
+            raise Unknown("%s._read_until_prompt_or_time: expected exactly one self.read()" % cname)
+        for n in ast.walk(fn):
+            if isinstance(n, ast.Try):
+                # a finally that leaves by return / break / continue would swallow what passes through it
+                for s in n.finalbody:
+                    if any(isinstance(x, (ast.Return, ast.Break, ast.Continue)) for x in ast.walk(s)):
+                        raise Unknown("%s._read_until_prompt_or_time: finally leaves the block" % cname)
+        found = []
+
+        def walk(stmts, stack):
+            for s in stmts:
+                if isinstance(s, ast.Try):
+                    walk(s.body, [("try", s)] + stack)
+                    for h in s.handlers:
+                        walk(h.body, stack)
+                    walk(s.orelse, stack)
+                    walk(s.finalbody, stack)
+                elif isinstance(s, (ast.With, ast.AsyncWith)):
+                    st = suppress_table(s)
+                    walk(s.body, ([("sup", st)] + stack) if st is not None else stack)
+                elif isinstance(s, (ast.If, ast.While, ast.For, ast.AsyncFor)):
+                    if any(c is calls[0] for c in ast.walk(s.test if hasattr(s, "test") else s.iter)):
+                        found.append(stack)
+                    walk(s.body, stack)
+                    walk(s.orelse, stack)
+                elif isinstance(s, (ast.FunctionDef, ast.AsyncFunctionDef, ast.ClassDef)):
+                    continue
+                elif any(c is calls[0] for c in ast.walk(s)):
+                    found.append(stack)
+        walk(fn.body, [])
+        if len(found) != 1:
+            raise Unknown("%s._read_until_prompt_or_time: self.read() not found where expected" % cname)
+        tbls = []
+        for kind, node in found[0]:
+            if kind == "sup":
+                tbls.append(node)
+            else:
+                tbls.append([(exc_list(h.type) if h.type is not None else ["EException"], may_swallow_action(h))
+                             for h in node.handlers])
+        out.append(tbls)
+    return out[0], out[1]
+
+
+def lock_facts(trees):
+    """Channel / AsyncChannel._channel_lock: wherever the body runs (`yield`) with the lock taken, the lock is given
+    back however the body is left: the yield sits inside `with self.channel_lock:` / `async with self.channel_lock:`,
+    or -- the lock taken by an explicit acquire() -- inside a try whose finally calls self.channel_lock.release()"""
+    ok = True
+    for key, cname in (("sync_channel", "Channel"), ("async_channel", "AsyncChannel")):
+        fn = find_func(find_class(trees[key], cname), "_channel_lock")
+        acquires = [c.lineno for c in ast.walk(fn) if isinstance(c, ast.Call) and ast.unparse(c.func) == "self.channel_lock.acquire"]
+        yields = []
+
+        def walk(node, managed, guarded):
+            for ch in ast.iter_child_nodes(node):
+                m, g = managed, guarded
+                if isinstance(ch, (ast.With, ast.AsyncWith)) and \
+                        any(ast.unparse(i.context_expr) == "self.channel_lock" for i in ch.items):
+                    m = True
+                if isinstance(ch, ast.Try):
+                    rel = any(isinstance(c, ast.Call) and ast.unparse(c.func) == "self.channel_lock.release"
+                              for s in ch.finalbody for c in ast.walk(s))
+                    for s in ch.body:
+                        walk_stmt(s, m, g or rel)
+                    for s in ch.handlers + ch.orelse + ch.finalbody:
+                        walk_stmt(s, m, g)
+                    continue
+                walk_stmt(ch, m, g)
+
+        def walk_stmt(ch, m, g):
+            if isinstance(ch, (ast.Yield, ast.YieldFrom)):
+                yields.append((ch.lineno, m, g))
+            walk(ch, m, g)
+        walk(fn, False, False)
+        if not yields:
+            raise Unknown("%s._channel_lock: no yield" % cname)
+        if not any(m for _, m, _ in yields) and not acquires:
+            raise Unknown("%s._channel_lock: the lock is never taken" % cname)
+        for line, m, g in yields:
+            if m:
+                continue
+            if acquires and line > min(acquires) and not g:
+                ok = False
+    return ok
+
+
 def generate(outdir):
     pyc, aliases = py_classes()
     for k, v in aliases.items():
         if pyc[NAMES[k]] is not v:
             raise Unknown("%s is not %s on this interpreter: the model merges them" % (k, NAMES[k]))
     lines = ["(* generated from the scrapli source tree by gen/gen_connloss.py -- do not edit *)",
-             "From Verif Require Import Bytes ConnLoss ConnLossNeg.", ""]
+             "From Verif Require Import Bytes ConnLoss ConnLossNeg ConnLossTime.", ""]
     lines.append("Definition gen_supers (x : cls) : list cls :=\n  match x with")
     for a in CLS:
         sup = [b for b in CLS if issubclass(pyc[a], pyc[b])]
@@ -535,6 +644,14 @@ def generate(outdir):
     lines.append("Definition gen_login_async : list table := %s." % coq_tables(async_t))
     lines.append("Definition gen_login_async_sleeps : bool := %s." % coq_bool(sleeps))
     lines.append("Definition gen_chan_loops_try_free : bool := %s." % coq_bool(free))
+    rt_sync, rt_async = rtime_facts(trees)
+    lines.append("Definition gen_rtime_sync : list table := %s." % coq_tables(rt_sync))
+    lines.append("Definition gen_rtime_async : list table := %s." % coq_tables(rt_async))
+    lines.append("Definition gen_rtime (a : bool) : list table := if a then gen_rtime_async else gen_rtime_sync.")
+    lock_ok = lock_facts(trees)
+    lines.append("Definition gen_chan_lock_released : bool := %s." % coq_bool(lock_ok))
+    info.update({"rtime_sync": [[[cs, a] for cs, a in t] for t in rt_sync], "rtime_async": [[[cs, a] for cs, a in t] for t in rt_async],
+                 "chan_lock_released": lock_ok})
     info.update({"login_sync": [[[cs, a] for cs, a in t] for t in sync_t], "login_async": [[[cs, a] for cs, a in t] for t in async_t],
                  "login_async_sleeps": sleeps, "chan_loops_try_free": free, "chan_loops_with_try": bad})
     for sfx in ("", "_strict"):
